@@ -149,7 +149,8 @@ func oracleC17(v *View, vd *Verdict) {
 			found := false
 			pubT, relT := int64(-1), int64(-1) // first transmission of each step
 			for _, t := range tx {
-				if t.Idx > a.invIdx && t.Idx < a.retIdx && t.SNErr == nil && t.SN.Type == refsn.PUBLISH && !found {
+				// (concurrent Publish calls of handlers: the call's PUBLISH is the one with its payload)
+				if t.Idx > a.invIdx && t.Idx < a.retIdx && t.SNErr == nil && t.SN.Type == refsn.PUBLISH && !found && (cp.EchoQoS == 0 || bytes.Equal(t.SN.Data, a.payload)) {
 					mid, found = t.SN.MsgID, true
 					pubT = t.T
 				}
@@ -193,18 +194,35 @@ func oracleC17(v *View, vd *Verdict) {
 			}
 			acked, ackedAtAll := false, false
 			gotRec, gotRecAtAll := false, false
-			for _, r := range rx {
+			// a write of the client's own that failed during the call ends the call with that error: an
+			// acknowledgement read after it came too late to count (either result is then right)
+			werrIdx := -1
+			for i := a.invIdx; i < a.retIdx && i < len(v.R.Hist); i++ {
+				if rec := v.R.Hist[i]; rec.Ch == "cl.sn:"+cp.Name+">" && rec.Kind == "tx-error" {
+					werrIdx = i
+					break
+				}
+			}
+			beforeWerr := func(idx int) bool { return werrIdx < 0 || idx < werrIdx }
+			acks := rx
+			if cp.EchoQoS > 0 {
+				// nothing is lost and nothing else can end the client in these plans: "the gateway
+				// acknowledged" is judged by what reached the client's socket — a client that does not
+				// read it (its receive loop waits for its own handlers) has no excuse
+				acks = clientDlv(v, cp.Name)
+			}
+			for _, r := range acks {
 				if r.Idx < a.invIdx || r.Idx > a.retIdx || r.SNErr != nil || r.SN.MsgID != mid {
 					continue
 				}
 				switch {
 				case q == 1 && r.SN.Type == refsn.PUBACK && r.SN.RC == refsn.RCAccepted:
-					acked, ackedAtAll = inTime(pubT, r.T), true
+					acked, ackedAtAll = inTime(pubT, r.T) && beforeWerr(r.Idx), true
 				case q == 2 && r.SN.Type == refsn.PUBREC:
 					gotRec, gotRecAtAll = inTime(pubT, r.T), true
 				case q == 2 && r.SN.Type == refsn.PUBCOMP:
 					if gotRec {
-						acked = inTime(relT, r.T)
+						acked = inTime(relT, r.T) && beforeWerr(r.Idx)
 					}
 					if gotRecAtAll {
 						ackedAtAll = true
@@ -276,6 +294,23 @@ func genC17(g *Gen, idx int) *Plan {
 		}
 		// the scripted gateway must not answer the client's PUBREC itself in this scenario
 		p.SGW.Rules = append(p.SGW.Rules, SGWRule{On: "PUBREC", Act: "ignore"})
+	}
+	if idx%12 == 11 {
+		// handlers that use the client API and wait for the reply (request/response, bridge), and a burst
+		// of messages for them within one round trip; nothing is lost
+		p.Family = "C17-echo-handlers"
+		cp.EchoQoS = uint8(1 + g.Intn(2))
+		cp.Ops = []ClientOp{{Op: "dial"}, {Op: "connect"}, {GapMs: 50, Op: "subscribe", Topic: "ab", QoS: 0}}
+		p.Cfg.SN.Rules = nil
+		p.SGW.Ops, p.SGW.Rules = nil, nil
+		at := g.Range(400, 900)
+		burst := int(g.Range(2, 12))
+		for k := 0; k < burst; k++ {
+			p.SGW.Ops = append(p.SGW.Ops, PeerOp{AtMs: at + int64(k)*g.Range(0, 2), Pkt: refsn.Pkt{Type: refsn.PUBLISH, TIT: refsn.TITShort, TopicID: refsn.ShortID("ab"), QoS: 0, Data: serialPayload("b", k, 2)}})
+		}
+		cp.Ops = append(cp.Ops, ClientOp{GapMs: at + 3*(int64(budget)+2)*cp.RetryDelayMs + 500, Op: "disconnect"})
+		p.Cfg.HorizonMs = at + 4*(int64(budget)+2)*cp.RetryDelayMs + 6000
+		return p
 	}
 	if g.Bool(0.1) {
 		// the client's own write of a PUBLISH fails (ECONNREFUSED after an ICMP error), once
@@ -707,6 +742,9 @@ func gwBehaviour(p *Plan) string {
 var apiMenu = []string{"register", "subscribe", "unsubscribe", "publish0", "publish1", "publish2", "ping", "sleep", "disconnect", "close"}
 
 func genC28(g *Gen, idx int) *Plan {
+	if idx%12 == 11 {
+		return alignedDisconnect(g, "C28-aligned-disconnect")
+	}
 	p, cp := g.clBase("C28-api")
 	if g.Bool(0.5) {
 		cp.KeepAliveMs = g.Range(1, 8) * 1000
@@ -1014,7 +1052,39 @@ func oracleC33(v *View, vd *Verdict) {
 	}
 }
 
+// alignedDisconnect: the keep-alive ping of the first tick stays unanswered and the client disconnects
+// just when the ping's retry timer comes round, with a slow client around that instant: the timer
+// callback and Disconnect (or Close) meet inside their critical sections.
+func alignedDisconnect(g *Gen, family string) *Plan {
+	p, cp := g.clBase(family)
+	cp.RetryDelayMs = g.Range(300, 1500)
+	cp.RetryCount = uint(g.Range(2, 4))
+	cp.KeepAliveMs = g.Range(2, 4) * 1000
+	p.Cfg.RetryDelayMs = cp.RetryDelayMs
+	at := cp.KeepAliveMs + cp.RetryDelayMs - []int64{20, 8, 3, 2, 1, 1, 0, 0}[g.Intn(8)]
+	ops := []ClientOp{{Op: "dial"}, {Op: "connect"}}
+	if g.Bool(0.3) {
+		// a user's Ping in a goroutine of its own instead of the keep-alive ping
+		cp.KeepAliveMs = 0
+		ops = append(ops, ClientOp{GapMs: at - cp.RetryDelayMs, Op: "ping", Async: true}, ClientOp{GapMs: cp.RetryDelayMs - []int64{8, 3, 2, 1, 1, 0}[g.Intn(6)], Op: []string{"disconnect", "close"}[g.Intn(2)]})
+	} else {
+		ops = append(ops, ClientOp{GapMs: at, Op: []string{"disconnect", "close"}[g.Intn(2)]})
+	}
+	ops = append(ops, ClientOp{Op: "wait"})
+	cp.Ops = ops
+	p.Cfg.SN.Rules = append(p.Cfg.SN.Rules, Rule{Dir: "g2c", Class: "PINGRESP", Count: 1000, Act: "drop"})
+	p.Cfg.Sched = simrt.SchedCfg{Density: 0.3 + g.Float()*0.7, Overlap: true, StallProb: 0.25, MaxStall: time.Duration(g.Range(300, 5000)) * time.Microsecond, MaxStalls: 60,
+		Sticky: []float64{0, 0.8, 0.95}[g.Intn(3)], StallAfter: time.Duration(at-100) * time.Millisecond}
+	p.Cfg.SN.MaxLatUs = g.Range(800, 4000)
+	n := int64(cp.RetryCount) + 1
+	p.Cfg.HorizonMs = at + 2*n*cp.RetryDelayMs + cp.ConnectTimeoutMs + 20000
+	return p
+}
+
 func genC33(g *Gen, idx int) *Plan {
+	if idx%10 == 9 {
+		return alignedDisconnect(g, "C33-aligned-disconnect")
+	}
 	p, cp := g.clBase("C33-keepalive")
 	p.Cfg.Sched = g.Sched("client/net.go", "client/client.go", "client/ping_transaction.go", "client/sleep_transaction.go")
 	cp.RetryDelayMs = g.Range(300, 1500)
